@@ -40,9 +40,11 @@ extern "C" void h_general(void) {
    for (int q = 0; q < 3; ++q) vp_assert(&(*g)[*w->P[q]] == w->P[q], 4);
    for (int k = 0; k < C16_K; ++k) {
       unsigned p = vp_pick(3), v = vp_pick(3);
+      { const ipr::Expr& before = (*g)[*w->P[p]]; vp_assert(last[p] >= 0 ? &before == w->V[last[p]] : &before == w->P[p], 8); }     // looked up immediately before ...
       impl::General_substitution& r = g->subst(*w->P[p], *w->V[v]);
       vp_assert(&r == g, 5);
       last[p] = (int)v;
+      vp_assert(&(*g)[*w->P[p]] == w->V[v], 9);                                                                                   // ... and immediately after the (re)binding
       const ipr::Substitution& s = *g;
       for (int q = 0; q < 3; ++q) {
          const ipr::Expr& e = s[*w->P[q]];
